@@ -217,6 +217,7 @@ def check_hist(ctx, depth, first):
         else:
             ctx.discharged += 1
     ctx.expect(paths, ret=1)
+    ctx.validate_paths(paths, 12)
 
 
 def check_stale(ctx):
@@ -244,6 +245,6 @@ def jobs(tier, seed):
     osrc = '#include "C15_owner.inc"\n'
     for f in range(NOPS):
         out.append(Job("C15_owner_hist_%d" % f, osrc, [dict(name="owner histories depth %d first op %d" % (depth, f), fn=check_hist,
-                                                            kw=dict(depth=depth, first=f), unwind=400)], native=False, max_paths=200000))
+                                                            kw=dict(depth=depth, first=f), unwind=400)], max_paths=200000))
     out.append(Job("C15_owner_stale", osrc, [dict(name="stale token lookup", fn=check_stale, unwind=400)]))
     return out
